@@ -365,6 +365,29 @@ theorem c07_headers_decoded_or_dead (cap : Nat) (c : GConn) (id : Nat) (es : Boo
       (r.1.dec = (decodeBlock cap c.dec block).dec ∧ (decodeBlock cap c.dec block).err = none) :=
   recvHeaders_spec cap c id es dep block keep pb
 
+/-- The loop of h2_parse_headers_frame() as written — fields handed to
+    http_request_parse_header() one by one, the rest of the block sent through
+    h2_discard_headers_frame() at the first field it refuses: WHATEVER the
+    parser refuses (`accept` is arbitrary) and whether the block opens a request
+    or carries trailers of a stream whose response has begun, the connection's
+    decoder ends in the state, and with the error, of decoding the whole block.
+    (A refusal never leaves the table behind the peer's.) -/
+theorem c07_refused_field_rest_decoded (cap : Nat) (accept : Field → Bool) (d : Dec) (block : Bytes) :
+    (parseFrame cap accept d block).dec = (decodeBlock cap d block).dec ∧
+    (parseFrame cap accept d block).err = (decodeBlock cap d block).err :=
+  parseFrame_state cap accept d block
+
+/-- non-vacuity: trailers `x-a: 1`, `:bogus: 1` (refused), then `x-c: 3`, `x-d: 4`
+    with incremental indexing: one field handed over, three table entries -/
+example :
+    let blk : Bytes := [0x40, 3, 0x78, 0x2d, 0x61, 1, 0x31, 0x00, 6, 0x3a, 0x62, 0x6f, 0x67, 0x75, 0x73, 1, 0x31,
+                        0x40, 3, 0x78, 0x2d, 0x63, 1, 0x33, 0x40, 3, 0x78, 0x2d, 0x64, 1, 0x34]
+    let r := parseFrame 65535 (fun f => f.name.headD 0 != colon) Dec.init blk
+    r.fields.map Field.header = [(ofString "x-a", ofString "1")] ∧ r.err = none ∧
+    r.dec.tbl.dyn = [(ofString "x-d", ofString "4"), (ofString "x-c", ofString "3"),
+                     (ofString "x-a", ofString "1")] := by
+  decide
+
 /-- Whole connection, with lighttpd's own decisions: the peer encodes header
     list after header list with its one encoder (ANY lists, choices, stream
     ids, flags); lighttpd runs h2_recv_headers() on each in order (a frame it
